@@ -202,5 +202,35 @@ func Discharge(obls []*Obligation, cfg SolveConfig) (solverMs map[string]int64, 
 		}(i, o)
 	}
 	wg.Wait()
+	// second chance for obligations that no solver answered in time (a loaded machine makes 0.1 s queries slow):
+	// a timeout is never reported as a violation before one unhurried attempt has been made
+	var again []int
+	for i, o := range obls {
+		if o.Status == "failed" && o.Solver == "none" && !strings.Contains(o.Output, ":unknown") && !strings.Contains(o.Output, ":sat") {
+			again = append(again, i)
+		}
+	}
+	if len(again) > 0 && len(again) <= 8 {
+		var wg2 sync.WaitGroup
+		for _, i := range again {
+			wg2.Add(1)
+			go func(i int) {
+				defer wg2.Done()
+				o := obls[i]
+				file := filepath.Join(dir, fmt.Sprintf("o%d.smt2", i))
+				r := runSolver(context.Background(), solvers[0], file, 3*cfg.SlowS)
+				mu.Lock()
+				defer mu.Unlock()
+				solverMs[r.solver] += r.ms
+				if r.status == "unsat" && !o.Cover {
+					o.Status, o.Solver, o.Ms, o.Output = "discharged", r.solver+"(retry)", r.ms, ""
+					solverCount[r.solver]++
+				} else if r.status == "sat" && !o.Cover {
+					o.Solver, o.Output, o.Model, o.Ms = r.solver, "sat", r.out, r.ms
+				}
+			}(i)
+		}
+		wg2.Wait()
+	}
 	return
 }
